@@ -6,7 +6,8 @@ import json, os, shutil, subprocess, sys
 rnd, src, props = int(sys.argv[1]), sys.argv[2], sys.argv[3:]
 STEER = {3: "a note asking for breadth of mechanism and quiet effects", 4: "a note assigning an angle to each change (aws-lc-rs-only code, import paths, rare variants, issuer-signed artefacts, helper impls, size/boundary handling)",
          5: "a note giving each change a maintainer's story (de-duplication, performance/caching, API robustness, idiom clean-up, feature addition with a sibling not updated) and asking for triggers that combine two conditions",
-         6: "a note about what it takes to manifest (two cooperating sites, a multi-step sequence, a fault/refusal path, a quantitative trigger, an interaction between fields)"}
+         6: "a note about what it takes to manifest (two cooperating sites, a multi-step sequence, a fault/refusal path, a quantitative trigger, an interaction between fields)",
+         7: "the same kind of note as round 6 with another trigger kind per property, one change each, steered away from the most-edited sites towards trait impls, accessors, conversions, CLI plumbing, cfg-gated code and the CRL/CSR paths"}
 ORIGIN = "written by an independent sub-agent that was given only the property record (statement, scope, anchors), %s, and its own scratch worktree of /repo (nothing from /verif)" % STEER.get(rnd, "a steer derived from the property text")
 for P in props:
     wt = os.path.join(src, P, "wt")
